@@ -30,3 +30,9 @@ func H_Leveragelp_Liquidate() { h_c08.H_ClosePositions_Liquidate() }
 //vrf:assert-prefix C06
 //vrf:max-paths 4000
 func H_Leveragelp_BeginBlocker() { h_c08.H_BeginBlocker_TwoPositions() }
+
+//vrf:cover valued
+//vrf:bound see h_c08.H_Tier_PortfolioValuation_ReadOnly
+//vrf:assert-prefix C07/C06
+//vrf:max-paths 3000
+func H_TierHooks_BookNoInterest() { h_c08.H_Tier_PortfolioValuation_ReadOnly() }
